@@ -214,7 +214,7 @@ func integerDivide(x, y any) (any, error) {
 		}
 	}
 
-	r, _ := xd.QuoRem(yd)
+	r, rem := xd.QuoRem(yd)
 
 	if r.IsInf(0) {
 		return nil, ErrInfinity
@@ -222,6 +222,12 @@ func integerDivide(x, y any) (any, error) {
 
 	if r.IsNaN() {
 		return nil, ErrNotANumber
+	}
+
+	// QuoRem truncates; the result is the floor of the quotient, as it is
+	// for floats above
+	if !rem.IsZero() && rem.Signbit() != yd.Signbit() {
+		r = r.Sub(decimal128.FromInt64(1))
 	}
 
 	return r, nil
